@@ -107,14 +107,22 @@ def wrap_dom(op, t, extra=''):
 @rule('contract_(?P<op>wrapped|wrapped_between|pingpong)_' + T)
 def _(m):
     t, op = m['t'], m['op']
+    if t == 'i8':
+        return E('quick', 300, wrap_clause(op) + ' (function contract, full domain)', wrap_dom(op, t), known_failing=sint_fail(op, t))
     if t in SIGNED:
-        return E('quick' if t == 'i8' else 'thorough', 300, wrap_clause(op) + ' (function contract, full domain)', wrap_dom(op, t),
-                 known_failing=sint_fail(op, t))
+        return None   # i16..isize: fails as expected, but only after 650-1400 s (i16); replaced by *_full_domain_no_overflow
     if t == 'u8':
         return E('quick', 120, wrap_clause(op) + ' (function contract, full domain)', wrap_dom(op, t))
     if t == 'u16' and op == 'wrapped':
         return E('thorough', 900, wrap_clause(op) + ' (function contract, full domain)', wrap_dom(op, t))
     return None   # wider unsigned full-domain contracts: no verdict within 200..2400 s -> not registered
+
+
+@rule('(?P<op>wrapped|wrapped_between|pingpong)_' + T + '_full_domain_no_overflow')
+def _(m):
+    t, op = m['t'], m['op']
+    return E('quick', 300, op + ': no intermediate overflow (and result in range) for every input whose result is representable, full domain',
+             wrap_dom(op, t), known_failing=sint_fail(op, t))
 
 
 @rule('contract_(?P<op>wrapped|wrapped_between|pingpong)_' + T + '_safe_region')
